@@ -33,7 +33,8 @@ func errOnlyBlock(fn *ssa.Function, b *ssa.BasicBlock) bool {
 }
 
 // subjectOf classifies an integer expression over the receiver recv:
-//   len:F / cnt:F (length of field F), elemlen:F (length of the current element of a range over F), val:F (field value)
+//
+//	len:F / cnt:F (length of field F), elemlen:F (length of the current element of a range over F), val:F (field value)
 func subjectOf(v ssa.Value, recv ssa.Value) (string, bool) {
 	v = stripAllConv(v)
 	// Len() method whose body is len(receiver), or builtin len
